@@ -80,7 +80,7 @@ ASSUMPTIONS = [
     "the scorer is driven with stub Theta objects whose conditional mean / variance are a table keyed by "
     "(sample id, treatment ids) of the rows asked about; real Screen/Plate, ThetaHolder, ChunkedDistanceMatrix",
     "an exception raised inside batchie on these well-formed inputs is a violation (the statement promises a value)",
-    "measured on the unchanged tree (426 196 calls of the thorough tier, all families): max |score - reference| / "
+    "measured on the unchanged tree (426 196 calls of the thorough tier, the eight families of the first build): max |score - reference| / "
     "(1 + |reference|) = 5.5e-16, also on the extreme-variance and huge-gap families (no cancellation problem), so "
     "rtol=atol=1e-9 is far from tight and was not loosened",
 ]
